@@ -12,7 +12,7 @@ CHECKS = {
     "C16": dict(
         engine=E1, category="exploration", design="§4 C16",
         technique="exhaustive enumeration of (n_tasks, n_batches, start, arr, args) and of pool fan-out schedules against a partition oracle",
-        text="Every (n_tasks<=40, n_batches<=45, start_idx, arr, args) combination of batch_tasks and every "
+        text="Every (n_tasks<=96, n_batches<=100 [quick: 24, 28], start_idx incl. one beyond the task count, arr, args) combination of batch_tasks and every "
              "(library size, n_batches, n_prior_samples / index array, pool size, chunk size, chunk order) fan-out through "
              "the real run_worker is enumerated and compared with the partition definition; bounded-exhaustive, which is "
              "the right level for a pure integer function whose branches (remainder, n_batches>n_tasks) all lie inside the bound.",
@@ -21,18 +21,18 @@ CHECKS = {
 
     "C08": dict(
         engine=E1, category="exploration", design="§4 C08",
-        technique="exhaustive enumeration of survey assignments (all surjections of <=6 epochs onto <=3 surveys, ties, list/dict forms, orders) against a tagged-observation oracle and the reference marginal likelihood",
-        text="Every interleaving of up to 6 epochs over up to 3 surveys, with identical epochs, every input form and survey order, is run through "
+        technique="exhaustive enumeration of survey assignments (all surjections of <=7 (quick: 5) epochs onto <=3 surveys, ties, list/dict forms, orders) against a tagged-observation oracle and the reference marginal likelihood",
+        text="Every interleaving of up to 7 (quick: 5) epochs over up to 3 surveys, with identical epochs, every input form and survey order, is run through "
              "validate_prepare_data and (sub-product) marginal_ln_likelihood; each merged row is traced back to its survey by a unique tag. "
              "Bounded-exhaustive over the layouts the statement quantifies over; numbers are fixed tags so only structure is explored.",
-        note="Trusts astropy Time/Quantity and the reference marginal (long-double Cholesky). For dict input only the partition structure is demanded.",
+        note="Trusts astropy Time/Quantity and the reference marginal (long-double Cholesky). For dict input the partition structure and the label of every row (the survey's own key) are demanded; which key is the offset-free reference is not. Plotting helpers are driven on an Agg canvas and the plotted points read back.",
     ),
     "C15": dict(
         engine=E1 + " + " + E3, category="exploration", design="§4 C15",
         technique="exhaustive enumeration of time/NaN/inf patterns, covariance permutations and copy/slice chains against a list-of-triples model",
         text="All time tuples of length <=3/4 over {t1<t2<t3,NaN}, all non-finite placements, clean, input format, unit, t_ref choices, all "
              "permutations of a 3-epoch covariance problem, and all chains (depth 2/3) of copy and every slice/index/mask are compared with a "
-             "boring list-of-triples model; differential check that chained states equal directly built ones.",
+             "boring list-of-triples model; differential check that chained states equal directly built ones; to_timeseries -> file -> from_timeseries is an operation of the chains; guess_from_table over column names x time formats/scales; covariances with small non-zero off-diagonals at three scales.",
         note="clean=False with non-finite input and all-dropped inputs are outside the statement and skipped. Trusts astropy.",
     ),
     "C17": dict(
@@ -40,7 +40,7 @@ CHECKS = {
         technique="exhaustive enumeration of small sample tables (sign/angle/unit/metadata alphabets), all index expressions and operation chains against a reference table model and an independent Kepler solver",
         text="Every K sign pattern for N<=3/4 rows with rotated omega alphabet, angle/K/P units and metadata runs through wrap_K, get_t0, "
              "pack/unpack, all index expressions, copy, mean/std, median_period; chains of depth 3/4 over 7 operations (incl. HDF5 round trip) "
-             "are compared step by step and against directly built states.",
+             "are compared step by step and against directly built states; tables with 5..10 rows (rows == packed columns), tied periods, numeric t_ref, non-canonical column insertion order.",
         note="Trusts astropy units/Time; twobody's orbit is compared against the independent reference solver on a time grid.",
     ),
     "C18": dict(
@@ -48,14 +48,14 @@ CHECKS = {
         technique="exhaustive enumeration of single (and paired) mutilations of every prior parameter, non-Normal linear priors, data/prior count matrix and constructor arguments; accept/refuse oracle",
         text="Every single mutilation of every parameter for three (poly_trend, n_offsets) shapes, 12 non-Normal families on every linear "
              "parameter, valid variations, mutilation x variation pairs, JokerPrior.default argument errors, all data forms x source counts x "
-             "offset counts, TheJoker.__init__ arguments: accepted iff valid.",
+             "offset counts (dict keys of different lengths extending one another), offsets handed over as list / tuple / iterator / generator, angle <-> dimensionless unit mix-ups, call histories on one TheJoker with a container mutated in place, TheJoker.__init__ arguments: accepted iff valid.",
         note="Any exception counts as refusal; single-source covariance data is 'either'.",
     ),
     "C19": dict(
         engine=E1, category="exploration", design="§4 C19",
         technique="exhaustive enumeration of observation subsets of a rational phase lattice x periods x bins x input orders, and of all small (ln_prior, ln_likelihood) tables, against exact rational definitions",
-        text="All subsets (<=4/5) of a 14-point phase lattice x 3 periods x 3 bin counts x input orders + time reversal are compared with exact "
-             "rational-arithmetic definitions of the diagnostics; all MAP tables with <=3/4 rows over a 9-letter alphabet.",
+        text="All subsets (<=4/6) of a 14-point phase lattice x 3 periods x 3 bin counts x input orders + time reversal are compared with exact "
+             "rational-arithmetic definitions of the diagnostics, for sorted / unsorted (sort=False) / raw NaN-polluted input, explicit reference epochs and periods stored in yr / h; all MAP tables with <=3/4 rows over a 9-letter alphabet incl. -inf and a stale ln_posterior column.",
         note="Trusts astropy Time arithmetic; an observation exactly whole cycles after the reference may fall in the first or last bin.",
     ),
     "C02": dict(
@@ -72,15 +72,15 @@ CHECKS = {
         technique="exhaustive enumeration of every acceptance subset x option combination on the real samplers with identifiable ln_prior/ln_likelihood tags per row",
         text="For N<=4, every position of the maximum and every acceptance subset, all option combinations of rejection_sample (paths, batching, "
              "every permutation for N<=3, truncations, n_linear, return_all_logprobs) and the iterative sampler are executed; each returned row's "
-             "ln_prior and ln_likelihood must be the tagged values of that row's library id, as plain floats.",
+             "ln_prior and ln_likelihood must be the tagged values of that row's library id, as plain floats; large-size probes (1100 / 2063 always-accepted rows, permuted) cross the samplers' internal size thresholds.",
         note="Stub kernel; identity encoded in P. Iterative ValueError/RuntimeError outcomes are left to C14.",
     ),
     "C12": dict(
         engine=E3 + " + " + E1, category="model_checking", design="§4 C12",
         technique="explicit-state BFS over write/overwrite/append/read histories on real HDF5 files with a reference file model (state = model content, asserted equal to the file in every state), plus exhaustive enumeration of batch-read selectors",
-        text="Breadth-first search to depth 3/4 over 34 operations per state (11 tables x 3 write modes + read) on a real file per state; every "
+        text="Breadth-first search to depth 3 (quick) / 8 (thorough: 583 states, 20 034 transitions) over 63 operations per state (11 tables x 4 write modes by name, 4 tables x 4 modes through an open h5py.File, read by name / by file object, batch read) on a real file per state; every "
              "transition checks accept/refuse verdict, byte-identity of the file after a refusal and the full content after acceptance. Batch reads: "
-             "every (start, stop, step), every index array of length<=3, scripted random reads x column subsets x unit requests.",
+             "every (start, stop, step), every index array of length<=3, scripted random reads x column subsets x unit requests; all columns in reversed / rotated order. The same write/read operations also go through an open h5py.File, append+overwrite is a fourth write mode, and a second sample table in a group of the same file must survive appends.",
         note="None-vs-value t_ref appends are 'either'. Trusts h5py/PyTables/astropy I/O.",
     ),
     "C14": dict(
@@ -97,7 +97,7 @@ CHECKS = {
         text="All histories to depth 3/4 over 21 helper operations x 3 prior configurations on the real compiled kernel (rows chosen to collide on "
              "every reused buffer, incl. pickling round trips), all (path, n_batches 1..N+2, pool) combinations with the real kernel, every chunking x "
              "chunk order of the modelled pool on the stub kernel, and the same matrix on real MultiPool(2)/(3): every value must be bitwise the "
-             "value of that row alone on a fresh helper, in input order; equal seeds must give the same accepted set on every path.",
+             "value of that row alone on a fresh helper, in input order; equal seeds must give the same accepted set (and, for randomised subsets, the same evaluated set as a canonical execution) on every path; the iterative sampler over initial batch size x growth factor with all-zero uniforms returns every finite row with its own values on every path.",
         note="Workers share no memory, so (chunking, order, helper sharing) is the observable schedule space; checked, not proved, by MultiPool conformance runs.",
     ),
     "C10": dict(
@@ -106,14 +106,14 @@ CHECKS = {
         text="All histories to depth 2/3 over 7 API operations (incl. prior samples by count, both paths, iterative sampler, prior.sample) are run "
              "from equal seeds twice and once with different numpy/Python global seeds: outputs bitwise equal per step, global states untouched, "
              "different seed changes the output; file-path operations are bitwise equal across 8 modelled pool schedules and real MultiPool(2); "
-             "identical always-accepted rows in different batches and repeated calls never repeat a linear draw.",
+             "identical always-accepted rows in different batches and repeated calls never repeat a linear draw; no value drawn by one call of a history re-appears in a later call; the same histories in child interpreters with other PYTHONHASHSEEDs give identical digests; one large request never repeats a draw.",
         note="Stub kernel (fixed function of the row) with the real prior; pymc's draw is trusted to be a function of the generator passed.",
     ),
     "C13": dict(
         engine=E2, category="fault_enumeration", design="§4 C13",
         technique="exhaustive single-fault (thorough: two-fault) injection at every call instruction executed in thejoker's Python code (sys.monitoring), x exception types, with leak / user-file / follow-up oracles",
         text="For 7 API variants x {object cache, user file} x {SerialPool + real kernel, modelled pool + stub with pickling}, every call event "
-             "inside thejoker's code (about 7.4k executions quick) fails once; the exception must reach the caller, no temporary HDF5 may remain, "
+             "inside thejoker's code (about 7.4k executions quick) fails once; the injected exception itself (or an explicit translation of it) must be what the caller sees, no temporary HDF5 may remain, "
              "the user's file keeps its sha256/mtime and a follow-up call on the same TheJoker returns the reference values. A real MultiPool(2) "
              "slice covers process workers. This is the literal quantifier of the property (every call, k-th invocation).",
         note="Faults are exceptions at call boundaries in Python code; SIGKILL / faults inside C calls are outside the model. The cleanup's own unlink is excluded from the leak oracle.",
@@ -123,7 +123,7 @@ CHECKS = {
         technique="exhaustive enumeration of the declared product (prior configurations x data shapes x theta grid x API paths) on the real compiled kernel against a closed-form long-double reference, with conditioning-aware bands and defect-twin attribution of the open kernel findings",
         text="Thorough: all 216 prior configurations x 36 data shapes x 1155-1575 theta rows x 3 paths (about 36 M kernel values); quick: a "
              "24-configuration covering subset x 12 shapes x 330 rows. Every value is compared with ln N(y | M mu, C + s^2 I + M Lambda M^T) "
-             "from the declared prior. A deviation is accepted only if it equals the exact alternative semantics of a listed open kernel "
+             "from the declared prior; data shapes include explicit (UTC/TCB) and absent (t_ref=False) reference epochs, surveys interleaved in time, mixed units per survey, raw NaN-polluted unsorted input and dicts with unsorted insertion order. A deviation is accepted only if it equals the exact alternative semantics of a listed open kernel "
              "finding whose trigger holds (K1-K4), or lies within the forward-error bound of the kernel's algebraic route (K5/K6).",
         note="The kernel explored is the working tree's generated C (no Cython in the image); numbers outside the grids are not covered. Trusts numpy/long-double arithmetic and the independent Kepler solver.",
     ),
@@ -140,15 +140,15 @@ CHECKS = {
         engine=E1, category="exploration", design="§4 C04",
         technique="exhaustive enumeration of configurations x data x (returned and hand-built) rows: reconstructed orbit vs reference design matrix, and the Bayes identity between API likelihoods and reference prior/posterior",
         text="For every returned row under accept-all scripted uniforms and three hand-built linear vectors per theta (K<0, 3-sigma trends, angles "
-             "outside [0,2pi)): samples.t_ref, get_orbit(i).radial_velocity(t)+offset = M(theta)x, and mll = ln p(y|theta,x) + ln p(x|theta) - ln N(x|a,A) to 1e-6.",
-        note="Survey calibration offsets are removed from the data by the check; ill-conditioned (tiny-error) shapes are left to C01.",
+             "outside [0,2pi)), and for the rows returned by the iterative sampler (in memory / cache file): samples.t_ref, get_orbit(i).radial_velocity(t)+offset = M(theta)x (also for orbit objects taken first and held while other rows' orbits are requested, after wrap_K on an object whose orbits were built, for the same observations wrapped with another epoch, and for whole-table vs one-row evaluation of fixed-period scans), and mll = ln p(y|theta,x) + ln p(x|theta) - ln N(x|a,A) to 1e-6.",
+        note="Survey calibration offsets are removed from the data by the check; ill-conditioned (tiny-error) shapes are left to C01. For t_ref=False data a loud refusal to build a curve is accepted (no epoch on either side), a wrong curve is not.",
     ),
     "C07": dict(
         engine=E1, category="exploration", design="§4 C07",
         technique="exhaustive enumeration of the product of unit assignments (prior parameters, P0, data, library columns) for 9 base problems; metamorphic comparison with the canonical twin on the real kernel",
         text="Every unit assignment (512 quick / 1728 thorough per base problem) of 9 base problems is evaluated in memory and through the "
              "cache-file path: Delta lnL = -N ln(unit ratio), identical accepted set under scripted uniforms placed 20 % away from every ratio, "
-             "physically equal (a, A) and returned columns; deviations are attributed to the open finding K3 only through its twin.",
+             "physically equal (a, A) and returned columns; user files re-written at one name per worker, library files extended by a chunk in the twin's units (refusal or same physical library), and ln_unmarginalized_likelihood with errors in another unit than the velocities; deviations are attributed to the open finding K3 only through its twin.",
         note="astropy conversions trusted; the canonical twin itself is validated by C01.",
     ),
     "C09": dict(
@@ -165,7 +165,7 @@ CHECKS = {
         technique="exhaustive enumeration of 72 (24 quick) prior/unit/jitter/offset configurations x parameter grid on the compiled pymc model (RVs replaced by values) against the reference Kepler/design-matrix model and declared densities",
         text="For each configuration setup_mcmc is called (1 or 5 samples, foreign column units) and model_rv, ln_likelihood and "
              "logp(jacobian=False) are evaluated on 12 points: equality with M(theta)x, with the Gaussian data term, and of log-density "
-             "differences with declared prior + Gaussian term; mcmc_init is the median-period sample in the prior's units.",
+             "differences with declared prior + Gaussian term (one theta at which the K-variance cap binds only through the eccentricity factor); mcmc_init is the median-period sample in the prior's units (also with log-prob columns present and through a custom_func hook, which must see the one chosen sample); inputs unmodified; from_inference_data returns the chain in the prior's units with divergent draws removed.",
         note="pymc/pytensor graph evaluation trusted; angles entered as unit vectors.",
     ),
 }
